@@ -269,7 +269,11 @@ static void cmd_val(const kv_t& kv) {
         std::ostringstream o;
         o << "{\"type\":\"" << tname(v.type) << "\",\"int\":" << (v.type == Value::T_INT ? v.int64 : 0) << ",\"op\":" << (v.type == Value::T_OPCODE ? (int)v.opcode : -1)
           << ",\"str\":\"" << hx(std::vector<unsigned char>(v.str.begin(), v.str.end())) << "\",\"data\":\"" << hx(v.data) << "\"";
-        if (geti(kv, "conv", 1)) {
+        if (geti(kv, "conv", 1) == 2) {
+            // only the bytes the value pushes as data (int_value() throws for data of more than 4 bytes)
+            Value c(v);
+            o << ",\"data_value\":\"" << hx(c.data_value()) << "\"";
+        } else if (geti(kv, "conv", 1)) {
             o << ",\"hex_str\":\"" << jesc(v.hex_str()) << "\"";
             if (v.type != Value::T_STRING) o << ",\"int_value\":" << v.int_value();
             Value c(v);
